@@ -38,6 +38,44 @@ func init() {
 					problem("forwarder worker: no setPosition call in the poll loop")
 				}
 				setAfter = nSet == 1 && iSet > iSink && iSink > iQuery
+				// … and it is reached only when the sink's error is nil: the first guard after the OnEvent call leaves the
+				// iteration on exactly `<the variable OnEvent's result was assigned to> != nil` — no further conjunct (a
+				// condition like `err != nil && ctx.Err() == nil` lets a rejected batch fall through to setPosition)
+				if setAfter {
+					errVar := ""
+					for i := iSink + 1; i < len(evs) && i < iSet; i++ {
+						if e := evs[i]; e.kind == "assign" && e.assign != nil && len(e.assign.Rhs) == 1 && e.assign.Rhs[0] == ast.Expr(evs[iSink].call) {
+							errVar = e.name
+							break
+						}
+					}
+					exact := false
+					for i := iSink + 1; i < iSet; i++ {
+						e := evs[i]
+						if e.kind != "guard" {
+							continue
+						}
+						if is, ok := e.node.(*ast.IfStmt); ok && is.Init == nil && errVar != "" {
+							if b, ok := is.Cond.(*ast.BinaryExpr); ok && b.Op == token.NEQ {
+								x, xok := b.X.(*ast.Ident)
+								y, yok := b.Y.(*ast.Ident)
+								exact = xok && yok && x.Name == errVar && y.Name == "nil"
+							}
+						} else if is, ok := e.node.(*ast.IfStmt); ok && is.Init != nil {
+							// `if err := sink.OnEvent(…); err != nil {`
+							if as, ok := is.Init.(*ast.AssignStmt); ok && len(as.Rhs) == 1 && as.Rhs[0] == ast.Expr(evs[iSink].call) && len(as.Lhs) == 1 {
+								if b, ok := is.Cond.(*ast.BinaryExpr); ok && b.Op == token.NEQ {
+									x, xok := b.X.(*ast.Ident)
+									y, yok := b.Y.(*ast.Ident)
+									l, lok := as.Lhs[0].(*ast.Ident)
+									exact = xok && yok && lok && x.Name == l.Name && y.Name == "nil"
+								}
+							}
+						}
+						break // only the first guard after the sink call counts
+					}
+					setAfter = exact
+				}
 
 				// the request variable of the loop function: what flows into Query's request argument
 				reqVar := ""
@@ -172,7 +210,7 @@ func init() {
 				}
 			}
 		}
-		l.p("/-- in the poll loop the only `setPosition(…)` comes after the sink's `OnEvent(…)` -/")
+		l.p("/-- in the poll loop the only `setPosition(…)` comes after the sink's `OnEvent(…)`, and the first branch after that call leaves the iteration on exactly `err != nil` (the error OnEvent returned, no further conjunct) -/")
 		l.p("def setPositionAfterAccept : Bool := %s", leanBool(setAfter))
 		l.p("/-- the variable passed to `Query` is replaced exactly once in the loop, after `OnEvent` (a failed iteration repeats the same request) -/")
 		l.p("def requestReplacedOnlyAfterAccept : Bool := %s", leanBool(retryKeeps))
